@@ -222,12 +222,63 @@ def check(item, tier):
             if ci % 2 == idx % 2 or K == 1:
                 check_histories(lambda fa=fa, fs=fs, f0=f0: StochasticFiniteStateController(pomdp, fa.copy(), fs.copy(), f0.copy()),
                                 pomdp, ps, act, eta, nu, L, r, item, dict(ctx, reused_controller=(ci % 4 < 2)))
+                check_api_tree(lambda fa=fa, fs=fs, f0=f0: StochasticFiniteStateController(pomdp, fa.copy(), fs.copy(), f0.copy()),
+                               pomdp, ps, act, eta, nu, 2, r, item, ctx)
         # ---------- (iii) learners
         if idx % (6 if tier == 'quick' else 2) == 0:
             check_learners(pomdp, ps, ga, bpi, r, item, k3, tier)
     if hash(repr(item)) % 30 == 0:
         r.sample({'pomdp': repr(pitem), 'controllers': len(controllers(nA, nO, tier)), 'history_length': L})
     return r
+
+
+def check_api_tree(mk, pomdp, ps, act, eta, nu, L, r, item, ctx):
+    """Probabilities of action/observation histories obtained by walking the history tree depth first through the object API
+    (initial_agentstate / action_dist / next_agentstate) of ONE controller object, against the sum over node paths."""
+    K = len(act)
+    sl, al, ol = pomdp.sl, pomdp.al, pomdp.ol
+    fsc = mk()
+    got = {}
+
+    def walk(ag, t, key, p):
+        if t == L:
+            got[key] = got.get(key, 0.0) + p
+            return
+        ad = dict(fsc.action_dist(ag).items())
+        for a in ps.anames:
+            pa = float(ad.get(al(a), 0.0))
+            if pa <= 0:
+                continue
+            for o in ps.obs:
+                nag = fsc.next_agentstate(ag, al(a), ol(o))
+                walk(nag, t + 1, key + ((a, o),), p * pa)
+    walk(fsc.initial_agentstate(), 0, (), 1.0)
+    # reference: P(a_1..a_L | o_1..o_{L-1}) by explicit sum over node paths (observations are given, so no environment factor)
+    want = {}
+
+    def rec(alphas, t, key):
+        if t == L:
+            want[key] = sum(alphas.values())
+            return
+        for ai, a in enumerate(ps.anames):
+            for oi, o in enumerate(ps.obs):
+                nal = {}
+                for k, w in alphas.items():
+                    pa = act[k][ai]
+                    if w == 0 or pa == 0:
+                        continue
+                    for k2 in range(K):
+                        pe = eta[k][ai][oi][k2]
+                        if pe:
+                            nal[k2] = nal.get(k2, F(0)) + w * pa * pe
+                if nal:
+                    rec(nal, t + 1, key + ((a, o),))
+    rec({k: nu[k] for k in range(K) if nu[k] > 0}, 0, ())
+    r.count('transitions', len(want))
+    for key, p in want.items():
+        if abs(got.get(key, 0.0) - float(p)) > 1e-9:
+            r.violation('api_history_probability', dict(ctx, history=repr(key), got=got.get(key, 0.0), want=p), item)
+            break
 
 
 def check_histories(mk, pomdp, ps, act, eta, nu, L, r, item, ctx):
@@ -376,6 +427,15 @@ def check_learners(pomdp, ps, ga, bpi, r, item, k3, tier):
                         r.violation('bpi_value_does_not_end_episode_at_absorbing_state', dict(ctx, got=float(res.value), want=want_t), item, finding='K3')
                     else:
                         r.violation('bpi_reported_value', dict(ctx, got=float(res.value), want=want_t, never_ending=want_n), item)
+                # the per-(node, state) value table reported next to it is the evaluation of the same returned controller
+                try:
+                    Vrep = np.asarray(res.state_controller_value, dtype=float)
+                    Vwant = Vn if k3 else Vt
+                    r.count('transitions')
+                    if Vrep.shape != Vwant.shape or not np.allclose(Vrep, Vwant, rtol=1e-7, atol=1e-7):
+                        r.violation('bpi_reported_value_table', dict(ctx, got=Vrep, want=Vwant), item)
+                except Exception as e:
+                    r.violation('bpi_exception', dict(ctx, error=repr(e)[:300]), item)
                 # monotonicity over the sequence of evaluated controllers that were adopted: consecutive
                 # evaluations; compare exact (float re-implementation) values of existing nodes
                 prev = None
